@@ -75,6 +75,19 @@ def rand_coeffs(rng, l, exps, M, parallel=False, zeros=False, small=False):
     return [[float(v) for v in row] for row in c]
 
 
+def prenormalise(l, exps, coeffs, digits):
+    """Each column scaled to a unit-normalised contraction (coefficients multiplying NORMALISED primitives, as gbasis and
+    the published tables define them) and then rounded to ``digits`` significant figures: the contraction is normalised
+    to 1e-7 .. 1e-9, not exactly, as in every published basis-set file."""
+    e = np.asarray(exps, float)
+    ov = (2 * np.sqrt(np.outer(e, e)) / np.add.outer(e, e)) ** (l + 1.5)
+    c = np.array(coeffs, dtype=float)
+    for m in range(c.shape[1]):
+        c[:, m] /= np.sqrt(c[:, m] @ ov @ c[:, m])
+        c[:, m] = [float("%.*e" % (digits - 1, v)) for v in c[:, m]]
+    return [[float(v) for v in row] for row in c]
+
+
 def rand_shell(rng, l, K=None, M=None, t=None, center=None, emin=0.02, emax=None, ecls=None, Kmax=4, Mmax=3):
     K = int(K or rng.integers(1, Kmax + 1))
     M = int(M or rng.integers(1, Mmax + 1))
@@ -83,11 +96,14 @@ def rand_shell(rng, l, K=None, M=None, t=None, center=None, emin=0.02, emax=None
     zer = bool(M >= 2 and K >= 2 and not par and rng.random() < 0.15)
     sml = bool(K >= 2 and rng.random() < 0.15)
     coeffs = rand_coeffs(rng, l, exps, M, parallel=par, zeros=zer, small=sml)
+    pre = bool(rng.random() < 0.12)
+    if pre:
+        coeffs = prenormalise(l, exps, coeffs, int(rng.integers(6, 9)))
     if center is None:
         center = rng.normal(size=3) * 1.5
     t = t or str(rng.choice(["c", "p"]))
     return {"l": int(l), "c": [float(x) for x in center], "e": exps, "k": coeffs, "t": t,
-            "_cls": ["exp:" + ecls] + (["coef:parallel"] if par else []) + (["coef:zeros"] if zer else []) + (["coef:small"] if sml else [])}
+            "_cls": ["exp:" + ecls] + (["coef:parallel"] if par else []) + (["coef:zeros"] if zer else []) + (["coef:small"] if sml else []) + (["coef:prenormalised"] if pre else [])}
 
 
 GEOM_CLASSES = ["coincident", "collinear", "coplanar", "general", "axis-zero", "axis-almost", "far", "near"]
@@ -230,6 +246,8 @@ def build(shells, cls=None):
       "rep"      {"k"|"e"|"c": representation} in-memory representation of the coefficient / exponent / centre array
                  handed to the constructor (Fortran order, strided view, read-only, negative strides, transposed view,
                  1-D coefficients, integer centre), and "t": "short" for the one-letter coordinate type
+      "ic"       the atom index ``icenter`` handed to the constructor (a label: two make_contractions results concatenated
+                 into one basis repeat the indices on different centres)
       "share"    key: shells with the same key are given the same centre ndarray OBJECT (what make_contractions does for
                  the shells of one atom); "share_e": the same exponent ndarray object
     """
@@ -252,7 +270,10 @@ def build(shells, cls=None):
             exps = expsobj.setdefault((s["share_e"], tuple(s["e"])), exps)
         coeffs = _arr_rep(s["k"], rep.get("k", "c"))
         ctype = s["t"] if rep.get("t") == "short" else TYPES[s["t"]]
-        out.append(cls(int(s["l"]), coord, coeffs, exps, ctype))
+        if s.get("ic") is not None:
+            out.append(cls(int(s["l"]), coord, coeffs, exps, ctype, icenter=int(s["ic"])))
+        else:
+            out.append(cls(int(s["l"]), coord, coeffs, exps, ctype))
         if key is not None:
             shared[key] = out[-1]
     return out
@@ -280,6 +301,9 @@ def add_argrep(rng, shells, classes):
         if rng.random() < 0.4:
             rep["t"] = "short"
         s["rep"] = rep
+        if rng.random() < 0.6:
+            s["ic"] = int(rng.integers(0, 2))  # atom labels, deliberately repeated on different centres
+            used.add("icenter")
         if rng.random() < 0.5:
             s["share"] = "g"
         if rng.random() < 0.5:
@@ -365,6 +389,17 @@ def rand_points(rng, shells, n, extra_centers=()):
     return pts, sorted(classes)
 
 
+def npts_pick(rng, hi):
+    """number of points/charges in 1..hi-1 with the counts that coincide with an array dimension (3 = number of Cartesian
+    axes, 1, 2) over-represented: a (3, 3) coordinate array is the one whose layout cannot be told from its shape"""
+    r = rng.random()
+    if r < 0.15:
+        return min(3, hi - 1)
+    if r < 0.22:
+        return int(rng.integers(1, 3))
+    return int(rng.integers(1, hi))
+
+
 def rand_sym(rng, n, kind=None):
     """Symmetric density matrices: PSD of rank r, indefinite, diagonal, zero."""
     kind = kind or str(rng.choice(["psd", "psd-lowrank", "indef", "diag", "psd"]))
@@ -379,6 +414,20 @@ def rand_sym(rng, n, kind=None):
         g = a + a.T
     elif kind == "diag":
         g = np.diag(rng.uniform(0, 2, size=n))
+    elif kind == "diag-indef":  # occupation numbers of a spin / difference density: exactly diagonal, both signs, some zeros
+        g = np.diag(rng.choice([-1.0, -0.25, 0.0, 0.5, 1.0, 2.0], size=n) * rng.uniform(0.5, 1.0, size=n))
+        if n >= 2:
+            g[0, 0], g[1, 1] = -abs(g[0, 0]) - 0.3, abs(g[1, 1]) + 0.3
+    elif kind == "idempotent":  # projector onto a random subspace (closed-shell density in an orthonormal basis)
+        q = np.linalg.qr(rng.normal(size=(n, n)))[0][:, : max(1, n // 2)]
+        g = q @ q.T
+    elif kind == "blockdiag":  # two uncoupled blocks, the second one indefinite
+        g = np.zeros((n, n))
+        k = max(1, n // 2)
+        a = rng.normal(size=(k, k))
+        g[:k, :k] = a @ a.T
+        b = rng.normal(size=(n - k, n - k))
+        g[k:, k:] = b + b.T
     else:
         g = np.zeros((n, n))
     g = 0.5 * (g + g.T)
